@@ -355,7 +355,24 @@ Inductive op :=
 | OXName (i : nat)                                                    (* name *)
 | OXAssign (i j : nat)                                                (* operator= *)
 | OXCtor (i j : nat)     (* the object in slot i is destroyed, a copy-constructed object takes its place *)
-| OXNew (i total : nat). (* the object in slot i is destroyed, identifier(total) takes its place *)
+| OXNew (i total : nat)  (* the object in slot i is destroyed, identifier(total) takes its place *)
+(* the name lies inside the identifier's own current content (aliasing source):
+   mpt_identifier_set(id, data(id) + off, len) *)
+| OSetSelf (i off : nat) (len : option nat).
+
+(* The argument a caller makes out of the identifier's own stored bytes [d]:
+   the buffer starts [off] bytes into them (at their end when there are fewer)
+   and ends where they end.  An explicit length is cut to what is left; the
+   strlen interface (None) is used only when a terminator lies in the buffer,
+   else the whole rest is announced -- so the caller keeps the C calling
+   convention whatever the content is.  harness/c16_ident.c (ops seta/setaz)
+   makes the same choice from _len and the stored bytes. *)
+Definition self_arg (d : list byte) (off : nat) (len : option nat) : list byte * option nat :=
+  let bs := skipn off d in
+  match len with
+  | Some n => (bs, Some (Nat.min n (length bs)))
+  | None => if existsb (N.eqb 0) bs then (bs, None) else (bs, Some (length bs))
+  end.
 
 Inductive out :=
 | ODone | ORefused
@@ -444,6 +461,18 @@ Definition mstep (w : world) (o : op) : res (world * out) :=
       do '(h1, _, _) <- xfini (wh w) id;
       Ok (mkw h1 (set_nth (wids w) i fresh), ODone)
     | _, _ => Ok (w, ORefused)
+    end
+  | OSetSelf i off len =>
+    (* the source bytes are the identifier's own: they are read where the C code
+       reads them, i.e. before anything of the identifier or its block is given
+       up (memcpy first, free / clearing afterwards; the inline-to-inline move of
+       overlapping ranges is a memmove, see docs/C16_alias_overlap.diff) *)
+    match nth_error (wids w) i with
+    | Some id =>
+      do d <- idata (wh w) id;
+      let '(bs, l) := self_arg d off len in
+      lift_set w i (iset (wh w) id (Some bs) l)
+    | None => Ok (w, ORefused)
     end
   end.
 
